@@ -63,7 +63,13 @@ void h_collect_step(void)
 {
   struct encoder_state *s = &W.e;
   uint8_t *block = (void *)(s->SA + CAP + GROUP_SIZE);
+#ifdef PATTERN        /* concrete input bytes: whole runs inside ONE call (the in-line run loop of collect()) are out of reach with symbolic bytes,
+                         because every stored byte indexes the 270 KB encoder object (in-use map) -- measured: 5 symbolic bytes do not finish */
+  static const uint8_t in_pat[NIN] = PATTERN; uint8_t in_buf[NIN]; uint8_t *in = in_buf;
+  { unsigned k; for (k = 0; k < NIN; k++) in_buf[k] = in_pat[k]; }
+#else
   V_IN_ARR(uint8_t, in, NIN);
+#endif
   V_IN_ARR(uint8_t, pre, CAP + 1);
   V_IN(uint32_t, crc0);
   V_IN(unsigned, ch0);
@@ -71,6 +77,9 @@ void h_collect_step(void)
   struct rle_spec sp;
   /* a saved state the encoder can be in between two calls */
   V_ASSUME(ch0 <= 255);
+#if defined(PATTERN) || defined(CRC_START)
+  V_ASSUME(crc0 == 0xFFFFFFFFu);          /* as encoder_init() leaves it; a symbolic start value turns the 9-step CRC chain into a 220 s equivalence proof */
+#endif
   s->max_block_size = CAP; s->nblock = FILL; s->rle_state = RUNK; s->rle_character = ch0; s->block_crc = crc0;
   sp.nb = FILL; sp.k = RUNK; sp.ch = ch0; sp.full = 0; sp.crc = crc0;
   for (i = 0; i < 256; i++) { bool b; s->cmap[i] = b; sp.cmap[i] = b; }
